@@ -406,7 +406,7 @@ def handle (args : List String) : String :=
   | ["releval", tbl, w, dbs] =>
       -- RelSem on every row of the root table: T / F / U per row (in table order); "noelab" / "noschema"
       withExpr w (fun e =>
-        match Spec.elabR Spec.vKind none e, decDB dbs with
+        match Spec.elabR Spec.vKind none (Spec.unwrapBoolCmp e), decDB dbs with
         | some f, some db =>
             let rows := Spec.DB.table db tbl.toList
             " ".intercalate (rows.map (fun r => (if Spec.lambdaClean Spec.vSchema db tbl.toList r f then "" else "x") ++
